@@ -41,7 +41,7 @@ def render_stmt(s, ind):
     if k in ("start_flow", "await_flow", "activate_flow"):
         kw = {"start_flow": "start", "await_flow": "await", "activate_flow": "activate"}[k]
         a = render_args(s.get("args"))
-        return [p + "%s %s%s%s" % (kw, s["flow"], (" " + " ".join(repr(v).replace("'", '"') for v in s["pos"])) if s.get("pos") else "", (" as %s" % s["ref"]) if s.get("ref") else "")]
+        return [p + "%s %s%s%s" % (kw, s["flow"], (" " + " ".join(v if isinstance(v, str) and v.startswith("$") else repr(v).replace("'", '"') for v in s["pos"])) if s.get("pos") else "", (" as %s" % s["ref"]) if s.get("ref") else "")]
     if k == "group":
         return [p + "%s %s" % (s["op"], render_formula(s["formula"]))]
     if k == "when":
@@ -142,6 +142,7 @@ class Gen:
         # advances its children in the same processing step (the races behind F15, F19-F22)
         self.events = list(events) if events else None
         self.few_actions = bool(events) and d.chance(0.6, "few_actions")
+        self.use_ref_helper = allow_actions and d.chance(0.35, "ref_helper")
         self.uid = 0
         self.activated = set()
 
@@ -211,6 +212,8 @@ class Gen:
             kinds.append(("group", 4 if self.action_scope_bias else 1))
         if self.rich_values:
             kinds += [("show", 4), ("refshow", 2), ("alias", 2)]
+        if self.allow_actions and self.use_ref_helper:
+            kinds.append(("ref_helper", 2))
         kinds.append(("abort", 0.4))
         kinds.append(("return", 0.3))
         k = d.weighted([x for x in kinds if x[1] > 0], key, "kind")
@@ -279,6 +282,12 @@ class Gen:
             out.append(self.wait_external((key, "rw")))
             out.append({"k": "send", "ev": self.fresh("M"), "args": {"v": v}})
             return out
+        if k == "ref_helper":
+            # one statement (`match $ref.Finished()` in the helper flow) that waits for whatever object it is handed: an utterance
+            # in one call, a gesture in the next - the event it waits for is a property of the bound object, not of the statement
+            name, par = d.choice(ACTIONS, key, "hact")
+            ref = "$" + self.fresh("h")
+            return [{"k": "start_action", "action": name, "args": {par: self.fresh("s")}, "ref": ref}, {"k": "await_flow", "flow": "zwait", "pos": [ref]}]
         if k == "alias":
             # two variables reach the same container (a record inside a structure and a variable for it); after a wait - where
             # the state may be saved and restored - the container is changed in place through one of them and read through the other
@@ -349,6 +358,8 @@ class Gen:
             if d.chance(0.3 if self.events else 0.15, "loopdec", i):
                 fl["decorators"] = ['@loop("L%d")' % d.randint(1, 2, "loopid", i)]
             flows.append(fl)
+        if self.use_ref_helper:
+            flows.append({"name": "zwait", "params": ["$ref"], "body": [{"k": "match_ref", "ref": "$ref", "member": "Finished"}]})
         return {"flows": flows}
 
 
